@@ -16,23 +16,7 @@ TRUSTED = ["modelled, not verified: kirin's lowering and interpreter loop (exerc
            "the program generator's own flattening of its AST to the reference operation sequence (harness/tweezer.py)"]
 ASSUMPTIONS = ["coordinates are dyadic rationals for which binary64 arithmetic is exact"]
 
-G = ("g", "grid", "grid.Grid[Any, Any]")
-CORPUS = [
-    # F1: index lists of different lengths through typed arguments
-    {"kernels": [{"name": "main", "params": [G, ("s0", "sel", "ilist.IList[int, Any]"), ("s1", "sel", "ilist.IList[int, Any]")],
-                  "body": [("set", ("gv", "g")), ("turn", True, ("sv", "s0"), ("sv", "s1")),
-                           ("turn", False, ("li", [("i", 0), ("i", 1)]), ("li", [("i", 1)]))]}],
-     "args": [("from", [0, 1], [0, 1]), ("li", 0, 1), ("li", 0)]},
-    # F1: slice through untyped arguments
-    {"kernels": [{"name": "main", "params": [G, ("s0", "sel", None), ("s1", "sel", None)],
-                  "body": [("set", ("gv", "g")), ("turn", True, ("sv", "s0"), ("sv", "s1")),
-                           ("move", ("shift", ("gv", "g"), ("f", 1), ("f", 0))), ("turn", False, ("sv", "s0"), ("sv", "s1"))]}],
-     "args": [("from", [0, 1], [0, 1]), ("sl", None, None, None), ("li", 0, 1)]},
-    {"kernels": [{"name": "main", "params": [G], "body": [("move", ("gv", "g"))]}], "args": [("from", [0, 1], [0])]},
-    {"kernels": [{"name": "main", "params": [G], "body": [("turn", True, ("ALL",), ("ALL",))]}], "args": [("from", [0, 1], [0])]},
-    {"kernels": [{"name": "main", "params": [G], "body": [("set", ("gv", "g")), ("move", ("from", [0, 1, 2], [0]))]}],
-     "args": [("from", [0, 1], [0])]},
-]
+CORPUS = T.CORPUS
 
 
 def run(ctx):
